@@ -7,7 +7,7 @@
    listed class). *)
 From Coq Require Import QArith.
 From GJ Require Import Base Kernel KernelSpec KernelProofs IntersectsProofs Series SeriesSpec
-  Ring RingSpec PipProofs PairProofs Jordan JordanQ.
+  Ring RingSpec PipProofs PairProofs Jordan JordanQ JordanGP.
 Open Scope Z_scope.
 
 (* X contains a point: point membership (for a single point covering = meeting) *)
@@ -78,6 +78,19 @@ Theorem C03_ring_segment_strict_pointset : forall ps A B,
    forall k P, 0 < k -> on_seg (sc k A, sc k B) P ->
                strictly_in_ringb (ring_edges (map (sc k) ps)) P = true).
 Proof. exact ring_contains_segment_strict_pointset. Qed.
+(* in general position — both ends off the boundary, no ring vertex on the segment — containment
+   with contact allowed (the test applied to exteriors) is the same decision, hence exact too:
+   the contact heuristics of ringContainsSegment (sites 6-11), where the known findings live, are
+   not reached *)
+Theorem C03_ring_segment_general_position : forall ps A B,
+  ring_convex (RS {| closed := true; pts := ps |}) = false ->
+  on_boundaryb (ring_edges ps) A = false -> on_boundaryb (ring_edges ps) B = false ->
+  no_vertex_on ps (A, B) ->
+  (rcs (RS {| closed := true; pts := ps |}) (A, B) true = true <->
+   forall k P, 0 < k -> on_seg (sc k A, sc k B) P ->
+               strictly_in_ringb (ring_edges (map (sc k) ps)) P = true).
+Proof. exact ring_contains_segment_general_position_pointset. Qed.
+
 (* non-vacuity: an L-shaped (concave) ring and a segment strictly inside it; and one that
    leaves through the notch *)
 Example C03_strict_example :
@@ -90,6 +103,7 @@ Proof. vm_compute. repeat split. Qed.
 Print Assumptions C03_rect_rect.
 Print Assumptions C03_ring_segment_strict_exact.
 Print Assumptions C03_ring_segment_strict_pointset.
+Print Assumptions C03_ring_segment_general_position.
 Print Assumptions C03_rect_line.
 Print Assumptions C03_rect_poly.
 Print Assumptions C03_point_line.
